@@ -1,6 +1,9 @@
 (* Property C13 — Unacknowledged transfers tolerate EOF overtaking file data up to the check limit.
    Model: Dest.handle_no_error_eof, check_limit_handling; Source.handle_wait_for_finish
-   (dest.py:1005-1016, 1074-1082, 1128-1139; source.py:777-784). Valid for every check limit. *)
+   (dest.py:1005-1016, 1074-1082, 1128-1139; source.py:777-784). Valid for every check limit.
+   A limit fault handled by IGNORE is declared once per expiry, not once per call (F34 repair): c13_expiry_limit_ignored,
+   c13_expiry_limit_ignored_once, c13_source_check_limit_ignored_waits_again (evaluated sender run:
+   proofs/CheckLimitProofs.v ex_source_check_limit_ignored). *)
 From CFDP Require Import Base LostSeg Fs Handler Dest Source HandlerSpec.
 From CFDP.gen Require Import Tables.
 From CFDP.proofs Require Import CheckLimitProofs.
@@ -47,15 +50,45 @@ Theorem c13_expiry_counts : forall s t r s1 tmo0 t0,
 Proof. exact expiry_counts. Qed.
 Print Assumptions c13_expiry_counts.
 
-(* the limit-th expiry: Check Limit Reached is declared, exactly then *)
+(* the limit-th expiry: Check Limit Reached is declared, exactly then; whatever its handler except IGNORE nothing else
+   happens in the procedure (statement corrected after the F34 repair: the IGNORE case is c13_expiry_limit_ignored) *)
 Theorem c13_expiry_limit : forall s t r s1,
   p_check_timer (d_p s) = Some t -> p_rcfg (d_p s) = Some r -> timed_out (now_d s) t = true ->
   checksum_verify s = (s1, Ok false) -> p_rcfg (d_p s1) = Some r ->
   r_check_limit r <= p_check_count (d_p s1) + 1 ->
+  get_fault_handler (l_faults (d_cfg s1)) C_CHECK_LIMIT <> Some FH_IGNORE ->
   check_limit_handling s = (fst (declare_fault C_CHECK_LIMIT s1),
                             match snd (declare_fault C_CHECK_LIMIT s1) with Ok _ => Ok tt | Err e => Err e end).
 Proof. exact expiry_limit. Qed.
 Print Assumptions c13_expiry_limit.
+
+(* the limit-th expiry with Check Limit Reached handled by IGNORE (F34 repair): exactly one callback, and the expiry is
+   counted and the timer restarted at the current time, exactly as below the limit *)
+Theorem c13_expiry_limit_ignored : forall s t r s1 a b tmo0 t0,
+  p_check_timer (d_p s) = Some t -> p_rcfg (d_p s) = Some r -> timed_out (now_d s) t = true ->
+  checksum_verify s = (s1, Ok false) -> p_rcfg (d_p s1) = Some r -> p_check_timer (d_p s1) = Some (t0, tmo0) ->
+  p_tid (d_p s1) = Some (a, b) ->
+  r_check_limit r <= p_check_count (d_p s1) + 1 ->
+  get_fault_handler (l_faults (d_cfg s1)) C_CHECK_LIMIT = Some FH_IGNORE ->
+  check_limit_handling s =
+    (s1 <| d_env ::= (fun en => en <| e_log ::= cons (EvFault FH_IGNORE a b C_CHECK_LIMIT (p_progress (d_p s1))) |>) |>
+        <| d_p ::= (fun p => p <| p_check_count ::= (fun c => c + 1) |> <| p_check_timer := Some (now_d s, tmo0) |>) |>, Ok tt).
+Proof. exact expiry_limit_ignored. Qed.
+Print Assumptions c13_expiry_limit_ignored.
+
+(* ... and the ignored fault is NOT declared again by the following calls: after any clock advance shorter than the timer
+   interval the procedure changes nothing (no callback, counter and timer as they are) *)
+Theorem c13_expiry_limit_ignored_once : forall s t r s1 a b tmo0 t0 dt,
+  p_check_timer (d_p s) = Some t -> p_rcfg (d_p s) = Some r -> timed_out (now_d s) t = true ->
+  checksum_verify s = (s1, Ok false) -> p_rcfg (d_p s1) = Some r -> p_check_timer (d_p s1) = Some (t0, tmo0) ->
+  p_tid (d_p s1) = Some (a, b) ->
+  r_check_limit r <= p_check_count (d_p s1) + 1 ->
+  get_fault_handler (l_faults (d_cfg s1)) C_CHECK_LIMIT = Some FH_IGNORE ->
+  now_d s1 = now_d s -> dt < tmo0 ->
+  let s2 := fst (check_limit_handling s) <| d_env ::= (fun en => en <| e_now ::= Z.add dt |>) |> in
+  check_limit_handling s2 = (s2, Ok tt).
+Proof. exact expiry_limit_ignored_once. Qed.
+Print Assumptions c13_expiry_limit_ignored_once.
 
 (* k expiries below the limit: the counter is exactly k (for every limit) *)
 Theorem c13_count_exact : forall (k : nat) (ss : nat -> dst) (r : rcfg) (c0 : Z),
@@ -70,10 +103,13 @@ Theorem c13_count_exact : forall (k : nat) (ss : nat -> dst) (r : rcfg) (c0 : Z)
 Proof. exact count_exact. Qed.
 Print Assumptions c13_count_exact.
 
-(* sender with closure: no Finished PDU before its check timer expires => Check Limit Reached is declared *)
+(* sender with closure: no Finished PDU before its check timer expires => Check Limit Reached is declared; whatever its
+   handler except IGNORE that is all (statement corrected after the F34 repair: the IGNORE case is
+   c13_source_check_limit_ignored_waits_again) *)
 Theorem c13_source_check_timer : forall s pkt t,
   (match pkt with Some (PFinished _ _ _ _ _) => False | Some (PNak _ _ _ _) => False | _ => True end) ->
   q_check_timer (s_p s) = Some t -> timed_out (now_s s) t = true ->
+  fault_ignored (s_cfg s) C_CHECK_LIMIT = false ->
   handle_wait_for_finish pkt s = declare_fault_s C_CHECK_LIMIT s.
 Proof. exact source_check_timer. Qed.
 Print Assumptions c13_source_check_timer.
@@ -83,6 +119,27 @@ Theorem c13_source_check_timer_running : forall s pkt t,
   handle_wait_for_finish pkt s = (s, Ok tt).
 Proof. exact source_check_timer_running. Qed.
 Print Assumptions c13_source_check_timer_running.
+
+(* the check timer expired and the table gives IGNORE for Check Limit Reached (F34 repair): one ignore callback, the timer
+   is restarted at the current time, the handler is still waiting for the Finished PDU (state, step, queue untouched);
+   and the following call, after any clock advance shorter than the interval, delivers nothing: no callback, no PDU *)
+Theorem c13_source_check_limit_ignored_waits_again : forall s pkt pkt' t a b dt,
+  (match pkt with Some (PFinished _ _ _ _ _) => False | Some (PNak _ _ _ _) => False | _ => True end) ->
+  (match pkt' with Some (PFinished _ _ _ _ _) => False | Some (PNak _ _ _ _) => False | _ => True end) ->
+  q_check_timer (s_p s) = Some t -> timed_out (now_s s) t = true ->
+  q_tid (s_p s) = Some (a, b) ->
+  get_fault_handler (l_faults (s_cfg s)) C_CHECK_LIMIT = Some FH_IGNORE ->
+  dt < snd t ->
+  let s1 := s <| s_env ::= (fun en => en <| e_log ::= cons (EvFault FH_IGNORE a b C_CHECK_LIMIT (q_progress (s_p s))) |>) |>
+              <| s_p ::= (fun q => q <| q_check_timer := Some (now_s s, snd t) |>) |> in
+  let s2 := s1 <| s_env ::= (fun en => en <| e_now ::= Z.add dt |>) |> in
+  handle_wait_for_finish pkt s = (s1, Ok tt) /\
+  s_state s1 = s_state s /\ s_step s1 = s_step s /\ s_queue s1 = s_queue s /\ s_ready s1 = s_ready s /\
+  log_s s1 = EvFault FH_IGNORE a b C_CHECK_LIMIT (q_progress (s_p s)) :: log_s s /\
+  q_check_timer (s_p s1) = Some (now_s s, snd t) /\
+  handle_wait_for_finish pkt' s2 = (s2, Ok tt).
+Proof. exact source_check_limit_ignored_waits_again. Qed.
+Print Assumptions c13_source_check_limit_ignored_waits_again.
 
 (* the mechanism can run by default: Checksum Failure is ignored, Check Limit Reached cancels
    (read from mib.py on every run) *)
